@@ -51,16 +51,25 @@ DriftFields(c) ==
          \cup (IF \E k \in 1..(NSteps(c) + 1) : c.out.ops[k].calls > 2 \/ ~c.out.ops[k].conv \/ ~c.out.ops[k].xdone \/ c.out.ops[k].xwrote
                THEN {"calls"} ELSE {})
 
-VARIABLES l, cnt
-Init == l = 1 /\ cnt = [n \in Props |-> 0]
+\* The failing predicates of a case are printed once per (predicate, class of the input) and chunk:
+\* the class is the tuple of the descriptor's signature_fields (lib/fn/gateway.json), so every
+\* signature the python side distinguishes still gets its first witness, while the thousands of
+\* further cases of an already reported class are only counted (nbad).
+Class(c) == <<c.in.backendless, c.in.sharedSplit, c.in.pathFirst, c.in.weightThenMatch>>
+
+VARIABLES l, cnt, seen, nbad
+Init == l = 1 /\ cnt = [n \in Props |-> 0] /\ seen = {} /\ nbad = [n \in Props |-> 0]
 Next ==
   /\ l <= Len(Cases)
   /\ l' = l + 1
   /\ LET c == Cases[l]
          bad == {n \in Props : Ante(n, c) /\ ~Holds(n, c)}
+         new == {n \in bad : <<n, Class(c)>> \notin seen}
      IN  /\ cnt' = [n \in Props |-> IF Ante(n, c) THEN cnt[n] + 1 ELSE cnt[n]]
-         /\ (bad = {} \/ PrintT(<<"BAD", c.id, bad>>))
+         /\ nbad' = [n \in Props |-> IF n \in bad THEN nbad[n] + 1 ELSE nbad[n]]
+         /\ seen' = seen \cup {<<n, Class(c)>> : n \in bad}
+         /\ (new = {} \/ PrintT(<<"BAD", c.id, new>>))
          /\ (DriftFields(c) = {} \/ PrintT(<<"DRIFT", c.id, "fn", DriftFields(c)>>))
-Spec == Init /\ [][Next]_<<l, cnt>>
-Accepted == (l = Len(Cases) + 1) => PrintT(<<"TRACE-DONE", Len(Cases), Len(Cases), ToJson(cnt)>>)
+Spec == Init /\ [][Next]_<<l, cnt, seen, nbad>>
+Accepted == (l = Len(Cases) + 1) => PrintT(<<"BAD-COUNT", ToJson(nbad)>>) /\ PrintT(<<"TRACE-DONE", Len(Cases), Len(Cases), ToJson(cnt)>>)
 =============================================================================
